@@ -361,6 +361,8 @@ CHECKS = {
             {"pkg": ".", "test": "TestVerifC08C",
              "instrument": ["store_message.go", "store_message_queue.go", "group_context.go", "internal/queue"],
              "quick": {"procs": 24, "checks_per_proc": 25}, "thorough": {"procs": 48, "checks_per_proc": 300}},
+            {"pkg": "internal/queue", "test": "TestVerifC08Q", "instrument": ["internal/queue"],
+             "quick": {"procs": 16, "checks_per_proc": 6000}, "thorough": {"procs": 32, "checks_per_proc": 60000}},
         ],
         "rule": "one case = 2-3 real devices of a multi-member group (optionally two devices of one member; precomputed-key window of the stores drawn from {100,1,2,3}) that activate their group "
                 "context and send 1-8 messages at seeded points while the simulator chooses every delivery of entries and chain-key "
